@@ -1,9 +1,9 @@
-import XjsModel.Proofs.RoundTrip
+import XjsModel.Proofs.RtDefs
 import XjsModel.Proofs.ParserTokens
 /-
   Round trip, part 2: one-step unfoldings of the parser on a known cursor, and state arithmetic.
 -/
-namespace Xjs.RT
+namespace Xjs.RTE
 open Xjs
 
 /-- `k` calls of `NextToken` -/
@@ -53,7 +53,8 @@ theorem unfold_expr (p : Nat) (st : PS) :
 theorem prefix_atom (hc : BaseCfg cfg) (st : PS) (h : (SE.atom st.cur).wf = true) :
     parsePrefixExpression cfg st = some (atomTree st.cur, st) := by
   rw [parsePrefixExpression, hc.prefixFns]
-  unfold SE.wf at h
+  have h : atomWf st.cur = true := by simpa [SE.wf] using h
+  unfold atomWf at h
   unfold atomTree
   cases hl : lookup basePrefixFns st.cur.type with
   | none => simp [hl] at h
@@ -90,14 +91,16 @@ theorem remaining_stop (left : Expr) (p : Nat) (st : PS)
 
 theorem remaining_step (left : Expr) (p : Nat) (st : PS)
     (h1 : st.peek.type ≠ .semicolon) (h2 : p < precOf cfg st.peek.type)
-    (h3 : st.peek.type ≠ .lparen ∧ st.peek.type ≠ .lbracket) :
+    (h3 : st.peek.nl = false ∨ (st.peek.type ≠ .lparen ∧ st.peek.type ≠ .lbracket)) :
     parseRemaining cfg left p st =
       (parseInfixExpression cfg left st >>= fun (x : Expr × PS) => parseRemaining cfg x.1 p x.2) := by
   rw [parseRemaining]
   have a : (st.peek.type != TokType.semicolon && decide (p < peekPrecedence cfg st)) = true := by
     simp [peekPrecedence, h1, h2]
   have b : (cfg.smart && st.peek.nl && (st.peek.type == TokType.lparen || st.peek.type == TokType.lbracket)) = false := by
-    simp [h3.1, h3.2]
+    rcases h3 with h3 | h3
+    · simp [h3]
+    · simp [h3.1, h3.2]
   simp only [a, b, if_true, Bool.false_eq_true, if_false]
 
 theorem infix_binary (hc : BaseCfg cfg) (left : Expr) (st : PS) (h : lookup baseInfixFns st.peek.type = some .binary) :
@@ -112,4 +115,82 @@ theorem infix_postfix (hc : BaseCfg cfg) (left : Expr) (st : PS) (h : lookup bas
   rw [parseInfixExpression, hc.infixFns, h]
   simp only [next_cur]
 
-end Xjs.RT
+theorem infix_assign (hc : BaseCfg cfg) (left : Expr) (st : PS) (h : st.peek.type = .assign) :
+    parseInfixExpression cfg left st =
+      (parseExpressionI cfg [] LOWEST st.next.next >>= fun (x : Expr × PS) =>
+        some (Expr.assign st.peek left x.1, x.2)) := by
+  have hl : lookup baseInfixFns TokType.assign = some .assign := by decide
+  rw [parseInfixExpression, hc.infixFns, h, hl, hc.exprI]
+  simp only [next_cur]
+
+theorem infix_compound (hc : BaseCfg cfg) (left : Expr) (st : PS)
+    (h : st.peek.type = .plusAssign ∨ st.peek.type = .minusAssign) :
+    parseInfixExpression cfg left st =
+      (parseExpressionI cfg [] LOWEST st.next.next >>= fun (x : Expr × PS) =>
+        some (Expr.compound st.peek left (compoundOp st.peek) x.1, x.2)) := by
+  have hl : lookup baseInfixFns st.peek.type = some .compound := by
+    rcases h with h | h <;> rw [h] <;> decide
+  rw [parseInfixExpression, hc.infixFns, hl, hc.exprI]
+  simp only [next_cur, compoundOp]
+
+theorem infix_call (hc : BaseCfg cfg) (left : Expr) (st : PS) (h : st.peek.type = .lparen) :
+    parseInfixExpression cfg left st =
+      (parseExpressionList cfg .rparen st.next >>= fun (x : ExprList × PS) =>
+        some (Expr.call st.peek left x.1, x.2)) := by
+  have hl : lookup baseInfixFns TokType.lparen = some .call := by decide
+  rw [parseInfixExpression, hc.infixFns, h, hl]
+  simp only [next_cur]
+
+theorem infix_member (hc : BaseCfg cfg) (left : Expr) (st : PS) (h : st.peek.type = .dot) :
+    parseInfixExpression cfg left st =
+      (parseExpressionI cfg [] MEMBER st.next.next >>= fun (x : Expr × PS) =>
+        some (Expr.member st.peek left x.1 false, x.2)) := by
+  have hl : lookup baseInfixFns TokType.dot = some .member := by decide
+  rw [parseInfixExpression, hc.infixFns, h, hl, hc.exprI]
+  simp only [next_cur]
+
+theorem infix_index (hc : BaseCfg cfg) (left : Expr) (st : PS) (h : st.peek.type = .lbracket) :
+    parseInfixExpression cfg left st =
+      (parseExpressionI cfg [] LOWEST st.next.next >>= fun (x : Expr × PS) =>
+        if (expectToken .rbracket x.2).1 then some (Expr.member st.peek left x.1 true, (expectToken .rbracket x.2).2)
+        else some (Expr.none, (expectToken .rbracket x.2).2)) := by
+  have hl : lookup baseInfixFns TokType.lbracket = some .index := by decide
+  rw [parseInfixExpression, hc.infixFns, h, hl, hc.exprI]
+  simp only [next_cur]
+  congr 1
+  funext x
+  cases hx : (expectToken TokType.rbracket x.2).1 <;> simp [hx]
+
+theorem prefix_array (hc : BaseCfg cfg) (st : PS) (h : st.cur.type = .lbracket) :
+    parsePrefixExpression cfg st =
+      (parseExpressionList cfg .rbracket st >>= fun (x : ExprList × PS) =>
+        some (Expr.array st.cur x.1 x.2.cur, x.2)) := by
+  have hl : lookup basePrefixFns TokType.lbracket = some .array := by decide
+  rw [parsePrefixExpression, hc.prefixFns, h, hl]
+
+theorem list_empty (endTy : TokType) (st : PS) (h : st.peek.type = endTy) :
+    parseExpressionList cfg endTy st = some (.nil, st.next) := by
+  rw [parseExpressionList]; simp [h]
+
+theorem list_nonempty (hc : BaseCfg cfg) (endTy : TokType) (st : PS) (h : st.peek.type ≠ endTy) :
+    parseExpressionList cfg endTy st =
+      (parseExpressionI cfg [] LOWEST st.next >>= fun (x : Expr × PS) =>
+        exprListLoop cfg (.cons x.1 .nil) x.2 >>= fun (y : ExprList × PS) =>
+          if (expectToken endTy y.2).1 then some (y.1, (expectToken endTy y.2).2) else some (.nil, (expectToken endTy y.2).2)) := by
+  rw [parseExpressionList, hc.exprI]
+  have : (st.peek.type == endTy) = false := by simpa using h
+  simp only [this, Bool.false_eq_true, if_false]
+
+theorem loop_stop (acc : ExprList) (st : PS) (h : st.peek.type ≠ .comma) :
+    exprListLoop cfg acc st = some (acc, st) := by
+  rw [exprListLoop]
+  have : (st.peek.type == TokType.comma) = false := by simpa using h
+  simp [this]
+
+theorem loop_step (hc : BaseCfg cfg) (acc : ExprList) (st : PS) (h : st.peek.type = .comma) :
+    exprListLoop cfg acc st =
+      (parseExpressionI cfg [] LOWEST st.next.next >>= fun (x : Expr × PS) => exprListLoop cfg (acc.snoc x.1) x.2) := by
+  rw [exprListLoop, hc.exprI]
+  simp [h]
+
+end Xjs.RTE
